@@ -19,6 +19,7 @@ import (
 	"tunnox-core/internal/cloud/repos"
 	"tunnox-core/internal/cloud/services"
 	"tunnox-core/internal/command"
+	"tunnox-core/internal/constants"
 	"tunnox-core/internal/core/types"
 	"tunnox-core/internal/packet"
 	"tunnox-core/internal/protocol/session"
@@ -85,14 +86,111 @@ type c11World struct {
 	cases  int
 	born   time.Time
 	suffix string // appended to every signature (names the wiring the run used)
+	state  c11State
 	query  interface {
 		QueryByPrefix(string, int) (map[string]string, error)
 	}
 }
 
+// c11State: lifecycle state of the victims' (and S's) mapping and connection code.
+type c11State struct {
+	Map  string // "" = active | revoked (by a party, record kept) | expired (ExpiresAt past, still stored) | inactive
+	Code string // "" = unused | revoked | expired (activation window past, record still stored) | activated
+}
+
 var c11WorldSeq int
 
 func c11NewWorld(t testing.TB, run *vk.Run, extra func(w *c11World)) *c11World {
+	return c11NewWorldState(t, run, extra, c11State{})
+}
+
+// applyState moves the objects into the requested lifecycle state through the
+// services a party / an operator would use; records are never removed.
+func (w *c11World) applyState(st c11State) (m2 map[string]string) {
+	t, n := w.t, w.n
+	m2 = map[string]string{}
+	pms := n.CCS.GetPortMappingService()
+	for _, mo := range []struct {
+		m     *models.PortMapping
+		party string
+	}{{w.M, "V2"}, {w.MS, "S"}} {
+		switch st.Map {
+		case "revoked":
+			if err := n.CCS.RevokeMapping(mo.m.ID, w.id[mo.party], fmt.Sprintf("client-%d", w.id[mo.party])); err != nil {
+				t.Fatalf("c11: revoke mapping: %v", err)
+			}
+		case "expired", "inactive":
+			cur, err := pms.GetPortMapping(mo.m.ID)
+			if err != nil {
+				t.Fatalf("c11: get mapping: %v", err)
+			}
+			if st.Map == "expired" {
+				past := time.Now().Add(-time.Hour)
+				cur.ExpiresAt = &past
+			} else {
+				cur.Status = models.MappingStatusInactive
+			}
+			if err := pms.UpdatePortMapping(cur); err != nil {
+				t.Fatalf("c11: update mapping: %v", err)
+			}
+		}
+		if st.Map != "" {
+			cur, err := pms.GetPortMapping(mo.m.ID)
+			if err != nil {
+				t.Fatalf("c11: mapping %s not stored after entering state %q: %v", mo.m.ID, st.Map, err)
+			}
+			ok := (st.Map == "revoked" && cur.IsRevoked) || (st.Map == "expired" && cur.IsExpired()) || (st.Map == "inactive" && cur.Status == models.MappingStatusInactive)
+			if !ok {
+				t.Fatalf("c11: mapping did not reach state %q: %+v", st.Map, cur)
+			}
+			*mo.m = *cur
+		}
+	}
+	for _, ko := range []struct {
+		k     *models.TunnelConnectionCode
+		owner string
+		by    string
+		name  string
+	}{{w.K, "V2", "V1", "K"}, {w.KS, "S", "S", "KS"}} {
+		switch st.Code {
+		case "revoked":
+			if err := n.CCS.RevokeConnectionCode(ko.k.Code, fmt.Sprintf("client-%d", w.id[ko.owner])); err != nil {
+				t.Fatalf("c11: revoke code: %v", err)
+			}
+		case "expired":
+			// the activation window is over but the record is still in the store (a backend
+			// that has not dropped it yet): rewrite the stored record with past instants
+			cur := *ko.k
+			cur.CreatedAt = time.Now().Add(-2 * time.Hour)
+			cur.ActivationExpiresAt = time.Now().Add(-time.Hour)
+			data, _ := json.Marshal(&cur)
+			for _, key := range []string{constants.KeyPrefixRuntimeConnectionCodeByCode + cur.Code, constants.KeyPrefixRuntimeConnectionCodeByID + cur.ID} {
+				if err := n.Store.Set(key, string(data), time.Hour); err != nil {
+					t.Fatalf("c11: rewrite code: %v", err)
+				}
+			}
+		case "activated":
+			nm, err := n.CCS.ActivateConnectionCode(&services.ActivateConnectionCodeRequest{Code: ko.k.Code, ListenClientID: w.id[ko.by], ListenAddress: "127.0.0.1:19100"})
+			if err != nil {
+				t.Fatalf("c11: activate code: %v", err)
+			}
+			m2[ko.name] = nm.ID
+		}
+		if st.Code != "" {
+			cur, err := n.CCS.GetConnectionCode(ko.k.Code)
+			if err != nil {
+				t.Fatalf("c11: code not stored after entering state %q: %v", st.Code, err)
+			}
+			ok := (st.Code == "revoked" && cur.IsRevoked) || (st.Code == "expired" && cur.IsExpired()) || (st.Code == "activated" && cur.IsActivated)
+			if !ok {
+				t.Fatalf("c11: code did not reach state %q: %+v", st.Code, cur)
+			}
+		}
+	}
+	return m2
+}
+
+func c11NewWorldState(t testing.TB, run *vk.Run, extra func(w *c11World), st c11State) *c11World {
 	c11WorldSeq++
 	bf := &security.BruteForceConfig{MaxFailures: 100000, TimeWindow: time.Hour, BanDuration: time.Hour, PermanentBanAt: 10000000, CleanupInterval: time.Hour}
 	rl := &security.RateLimitConfig{Rate: 1000000, Burst: 1000000, TTL: time.Hour}
@@ -166,6 +264,9 @@ func c11NewWorld(t testing.TB, run *vk.Run, extra func(w *c11World)) *c11World {
 	w.D["D2"] = mkDom("V2", "d2")
 	w.D["DS"] = mkDom("S", "ds")
 
+	w.state = st
+	activatedMappings := w.applyState(st)
+
 	add := func(name string, parties []string, marks ...string) {
 		o := &c11Obj{Name: name, Parties: map[string]bool{}, Marks: marks}
 		for _, p := range parties {
@@ -179,8 +280,17 @@ func c11NewWorld(t testing.TB, run *vk.Run, extra func(w *c11World)) *c11World {
 	}
 	add("M", []string{"V1", "V2"}, mm(w.M, "m")...)
 	add("MS", []string{"S"}, mm(w.MS, "ms")...)
-	add("K", []string{"V2"}, w.K.Code, w.K.ID, "ta-k-"+w.mark, "desc-k-"+w.mark)
-	add("KS", []string{"S"}, w.KS.Code, w.KS.ID, "ta-ks-"+w.mark, "desc-ks-"+w.mark)
+	kParties, kMarks := []string{"V2"}, []string{w.K.Code, w.K.ID, "ta-k-" + w.mark, "desc-k-" + w.mark}
+	ksMarks := []string{w.KS.Code, w.KS.ID, "ta-ks-" + w.mark, "desc-ks-" + w.mark}
+	if id, ok := activatedMappings["K"]; ok {
+		// K was activated by V1: V1 is a party to the code's record and to the mapping it created
+		kParties, kMarks = []string{"V1", "V2"}, append(kMarks, id)
+	}
+	if id, ok := activatedMappings["KS"]; ok {
+		ksMarks = append(ksMarks, id)
+	}
+	add("K", kParties, kMarks...)
+	add("KS", []string{"S"}, ksMarks...)
 	add("D1", []string{"V1"}, w.D["D1"].ID+"\"", "d1"+w.mark, "dh-d1-"+w.mark, "desc-d1-"+w.mark)
 	add("D2", []string{"V2"}, w.D["D2"].ID+"\"", "d2"+w.mark, "dh-d2-"+w.mark, "desc-d2-"+w.mark)
 	add("DS", []string{"S"}, w.D["DS"].ID+"\"", "ds"+w.mark, "dh-ds-"+w.mark, "desc-ds-"+w.mark)
@@ -760,6 +870,13 @@ func (w *c11World) exec(cs c11Case, seq int, settle bool) *c11Outcome {
 		}
 		time.Sleep(2 * time.Millisecond)
 	}
+	if cs.CT == byte(packet.ConnectionCodeList) {
+		// the owner's list call garbage-collects its expired codes on a goroutine of its own
+		// (conncode.ListConnectionCodesByTargetClient); let it finish inside this case
+		if !c11WaitNoGoroutine([]string{"ListConnectionCodesByTargetClient"}, 10*time.Second) {
+			out.Watchdog = true
+		}
+	}
 	w.pump(out, cs.Req)
 	runtime.Gosched()
 	w.pump(out, cs.Req)
@@ -1004,7 +1121,7 @@ func (w *c11World) judge(cs c11Case, cmd *packet.CommandPacket, out *c11Outcome)
 
 func (w *c11World) describe() map[string]any {
 	return map[string]any{"ids": w.id, "M": w.M.ID, "MS": w.MS.ID, "K": w.K.Code, "KS": w.KS.Code,
-		"D1": w.D["D1"].ID, "D2": w.D["D2"].ID, "DS": w.D["DS"].ID, "mark": w.mark,
+		"D1": w.D["D1"].ID, "D2": w.D["D2"].ID, "DS": w.D["DS"].ID, "mark": w.mark, "mapping_state": w.state.Map, "code_state": w.state.Code,
 		"roles": "U0=no handshake; U1=phase-1 for V1 only; V1=listen side of M; V2=target side of M, owner of K; S=unrelated, owns MS/KS/DS"}
 }
 
@@ -1077,6 +1194,7 @@ type c11Driver struct {
 	settle  map[byte]bool
 	reached map[byte]bool
 	suffix  string
+	state   c11State
 }
 
 func (d *c11Driver) world() *c11World {
@@ -1085,7 +1203,7 @@ func (d *c11Driver) world() *c11World {
 		d.w = nil
 	}
 	if d.w == nil {
-		d.w = c11NewWorld(d.t, d.run, d.extra)
+		d.w = c11NewWorldState(d.t, d.run, d.extra, d.state)
 		d.w.suffix = d.suffix
 	}
 	return d.w
@@ -1116,7 +1234,7 @@ func (d *c11Driver) one(ct byte, pt packet.Type, req, kind, forge string, bodyOf
 	}
 	w.judge(cs, cmd, out)
 	fp := w.fingerprint(cs, cmd, out)
-	d.run.Distinct(fmt.Sprintf("%d/%d/%s/%s/%s", ct, pt, req, kind, forge))
+	d.run.Distinct(fmt.Sprintf("%d/%d/%s/%s/%s/%s/%s", ct, pt, req, kind, forge, d.state.Map, d.state.Code))
 	if out.Success {
 		d.run.Count("success_responses", 1)
 		d.reached[ct] = true
@@ -1262,7 +1380,7 @@ func c11AllTypes() []byte {
 func TestVerifC11Table(t *testing.T) {
 	run := vk.Start(t, "C11", "table")
 	defer run.Finish()
-	run.Rule("every CommandType byte 0..255 as JsonCommand (quick: CommandResp only for registered/special-cased types; thorough: CommandResp for all) x requester {U0 no handshake, U1 phase-1 for V1's id only, V1 listen party, V2 target party, S unrelated authenticated} x body {handler's well-formed body aimed at the victims' objects, same aimed at S's objects, both again with every receiver/identity-looking body field naming a non-party client, DNS default-target, empty, truncated JSON (+4 malformed mutants thorough)} x forgery {none, victim ids in SenderId/ReceiverId, victim's secret in Token, victim's id in Token, identity fields added to the body (+swapped ids, all combined thorough)}; a case is distinct by that tuple; worlds (fresh mini server + objects with fresh markers) are rebuilt after every state-changing case")
+	run.Rule("every CommandType byte 0..255 as JsonCommand (quick: CommandResp only for registered/special-cased types; thorough: CommandResp for all) x requester {U0 no handshake, U1 phase-1 for V1's id only, V1 listen party, V2 target party, S unrelated authenticated} x body {handler's well-formed body aimed at the victims' objects, same aimed at S's objects, both again with every receiver/identity-looking body field naming a non-party client, DNS default-target, empty, truncated JSON (+4 malformed mutants thorough)} x forgery {none, victim ids in SenderId/ReceiverId, victim's secret in Token, victim's id in Token, identity fields added to the body (+swapped ids, all combined thorough)}; a case is distinct by that tuple; then, for the registered and special-cased types, again with the mappings in state {revoked by a party, expired but stored, inactive} and the connection codes in state {revoked, expired but stored, activated}; worlds (fresh mini server + objects with fresh markers) are rebuilt after every state-changing case")
 	d := &c11Driver{t: t, run: run, settle: map[byte]bool{}, reached: map[byte]bool{}}
 	defer func() {
 		if d.w != nil {
@@ -1295,6 +1413,31 @@ func TestVerifC11Table(t *testing.T) {
 		// flag variants of the packet type byte (compressed/encrypted bits are ignored by the dispatcher)
 		d.sweep(append(append([]byte{}, registered...), special...), []packet.Type{packet.JsonCommand | packet.Compressed, packet.CommandResp | packet.Encrypted}, []string{"ids"}, false)
 	}
+	// object-state variants: the same commands against victims' objects that are revoked,
+	// expired (record still stored), inactive, activated
+	handled := append(append([]byte{}, registered...), special...)
+	states := []c11State{{"revoked", "revoked"}, {"expired", "expired"}, {"inactive", "activated"}}
+	if run.Thorough() {
+		states = append(states, c11State{"revoked", "activated"}, c11State{"expired", "revoked"}, c11State{"inactive", "expired"})
+	}
+	for _, st := range states {
+		if d.w != nil {
+			d.w.close()
+			d.w = nil
+		}
+		d.state = st
+		before := run.Counter("success_responses") + run.Counter("refusal_responses")
+		d.sweep(handled, []packet.Type{packet.JsonCommand}, []string{"ids"}, false)
+		run.Count("state_variant_worlds_swept", 1)
+		run.Count("state_variant_responses", run.Counter("success_responses")+run.Counter("refusal_responses")-before)
+	}
+	if d.w != nil {
+		d.w.close()
+		d.w = nil
+	}
+	d.state = c11State{}
+	run.Floor("state_variant_worlds_swept", 3)
+	run.Floor("state_variant_responses", 300)
 	cov := 0
 	var missing []byte
 	for _, ct := range registered {
